@@ -343,7 +343,7 @@ func (w *world) runCase(c tcase, withHSM bool) (res *caseResult) {
 			break
 		}
 	}
-	if t, err := cloneTemplate(raw); err == nil && txHex(t.Transaction) != hexDirect {
+	if t, err := cloneTemplate(raw); err == nil && len(jsonPws) > 0 && txHex(t.Transaction) != hexDirect {
 		fail("json-flow-transaction-differs", "signing JSON copies of the template signer by signer gives a different transaction", map[string]string{"direct": hexDirect, "json": txHex(t.Transaction)})
 	}
 
